@@ -15,7 +15,7 @@ def run(tier):
     # the whole surface to a small depth (one sequence per distinct state), then the life of one body filter to depth 7, every call sequence
     for cfg in ["MC_Ffi_quick.cfg" if tier == "quick" else "MC_Ffi_thorough.cfg", "MC_Ffi_filter.cfg"]:
         cases = os.path.join(wd, cfg + ".cases.ndjson")
-        mc = tlc_mc("MC_Ffi", cfg, wd, workers=12, cases_out=cases, coverage=False, timeout=6000, xmx="12g" if tier == "quick" else "28g")
+        mc = tlc_mc("MC_Ffi", cfg, wd, workers=12, cases_out=cases, coverage=False, timeout=6000, xmx="12g")
         c.add_mc(mc)
         trace = os.path.join(wd, "trace.ndjson")
         run_harness("ffi", cases, trace, timeout=6000)
